@@ -31,16 +31,17 @@ K04 = [
     Skeleton("i09_variable_parenthesised", {"main.py": "def fun({0}):\n    {1} = ({0} + 1)\n    {2} = [{1} * 2, {0}]\n    return {2} + [{1}]\nprint(fun(1))\n"}),
     Skeleton("i10_from_import_several_names", {"mod1.py": "{0} = 3\ndef {1}({2}):\n    return {2} + {0}\ndef other():\n    return 7\n", "main.py": "from mod1 import {1}, other\n{3} = 2\nprint({1}({3}), other())\n", "user2.py": "from mod1 import other, {1}\nval = {1}(1) + other()\n"}, entry="main.py"),
     Skeleton("i11_call_on_continuation_line", {"main.py": "def {0}({1}):\n    {2} = {1} * 2\n    return {2}\n{3} = [\n    1,\n        {0}(3),\n]\nprint({3})\n"}),
+    Skeleton("i12_method_dotted_receiver_separate_statements", {"main.py": "class Inner:\n    def __init__(self):\n        self.val = 3\n    def {0}(self, {1}, {2}=1):\n        return [self.val, {1}, {2}]\nclass Holder:\n    def __init__(self):\n        self.inner = Inner()\n{3} = Holder()\nprint({3}.inner.{0}(4))\nprint({3}.inner.{0}(5, {2}=6))\n"}),
     Skeleton("i08_method_dotted_receiver", {"main.py": "class Inner:\n    def __init__(self):\n        self.val = 3\n    def {0}(self, {1}, {2}=1):\n        return [self.val, {1}, {2}]\nclass Holder:\n    def __init__(self):\n        self.inner = Inner()\n{3} = Holder()\nprint({3}.inner.{0}(4), {3}.inner.{0}(5, {2}=6))\n"}),
 ]
 
 
 # slots that are parameters of the definition being inlined (offset on them = inline parameter)
 PARAM_SLOTS = {"i01_func_kw_default": {1, 2}, "i03_method": {1, 2}, "i04_two_modules": {1}, "i05_parameter": {0, 1}, "i06_multi_statement_body": {1},
-               "i07_nested_call_args": {1, 2}, "i08_method_dotted_receiver": {1, 2}, "i10_from_import_several_names": {2}}
+               "i07_nested_call_args": {1, 2}, "i08_method_dotted_receiver": {1, 2}, "i12_method_dotted_receiver_separate_statements": {1, 2}, "i10_from_import_several_names": {2}}
 
 
-QUICK_FUNCTION_NAME_ONLY = {"i08_method_dotted_receiver": 0, "i10_from_import_several_names": 1, "i11_call_on_continuation_line": 0}
+QUICK_FUNCTION_NAME_ONLY = {"i08_method_dotted_receiver": 0, "i12_method_dotted_receiver_separate_statements": 0, "i10_from_import_several_names": 1, "i11_call_on_continuation_line": 0}
 
 
 def instances(tier):
